@@ -3,7 +3,7 @@
    with and the CHECKERS that do the comparing (model/Check18.v, extracted and run on every output = translation validation);
    the implementations themselves are tied by the differential runs of ./check C18. *)
 From Coq Require Import ZArith List Bool Lia.
-From DG Require Import CaseFormat ProtoWireRef ThriftWire ThriftWireProofs Json Num JsonProofs NumProofs Check18 C18Proofs.
+From DG Require Import CaseFormat ProtoWireRef ThriftWire ThriftWireProofs Json Num JsonProofs NumProofs J2T Check18 Check18b C18Proofs.
 Import ListNotations.
 Local Open Scope Z_scope.
 
@@ -73,6 +73,23 @@ Theorem C18_check_j2t_ok_means_agreement : forall ds root ob doc nats p,
   (forall r, In r (p :: nats) -> fst r = 0 /\ snd r = snd p).
 Proof. exact judge_1801_ok_agree. Qed.
 Print Assumptions C18_check_j2t_ok_means_agreement.
+
+(* 1807 j2t against THE SAME model function (the J2T model of C02) for every flavour: VOk means every implementation that was run
+   produced exactly the model's bytes (or the model rejects and everybody rejected); equality with the model gives pairwise equality *)
+Theorem C18_check_j2t_model_sound : forall m known nats p,
+  judge_1807 m known nats p = VOk ->
+  match m with
+  | Ok bs => forall r, In r (p :: nats) -> fst r = 0 /\ snd r = bs
+  | Err _ => forall r, In r (p :: nats) -> fst r <> 0
+  end.
+Proof. exact judge_1807_ok. Qed.
+Print Assumptions C18_check_j2t_model_sound.
+
+Theorem C18_model_agreement_gives_pairwise : forall bs known nats p,
+  judge_1807 (Ok bs) known nats p = VOk ->
+  forall a b, In a (p :: nats) -> In b (p :: nats) -> snd a = snd b.
+Proof. exact judge_1807_ok_pairwise. Qed.
+Print Assumptions C18_model_agreement_gives_pairwise.
 
 (* 1802 skip: SkipGo and every flavour of SkipNative consumed exactly the model's count *)
 Theorem C18_check_skip_sound : forall t bs mask eg ng e0 n0 e1 n1 e2 n2 r,
